@@ -131,4 +131,139 @@ Section CombineProofs.
     rewrite Forall_forall in *. intros z Hz. specialize (Hx z Hz). unfold le in Hx.
     destruct (lt x z) eqn:E; [reflexivity|]. exfalso. apply Hnot. rewrite (equiv_key x z E Hx). apply in_map. exact Hz.
   Qed.
+  (* ---- key sets, record invariants, uniqueness of the result ------------------------------------------------------- *)
+  Definition same_keys (l l' : list A) : Prop := forall k, In k (map key l) <-> In k (map key l').
+
+  Lemma same_keys_refl : forall l, same_keys l l.
+  Proof. intros l k. tauto. Qed.
+  Lemma same_keys_trans : forall a b c, same_keys a b -> same_keys b c -> same_keys a c.
+  Proof. intros a b c H1 H2 k. rewrite (H1 k). apply H2. Qed.
+  Lemma same_keys_app : forall a a' b b', same_keys a a' -> same_keys b b' -> same_keys (a ++ b) (a' ++ b').
+  Proof. intros a a' b b' H1 H2 k. rewrite !map_app, !in_app_iff, (H1 k), (H2 k). tauto. Qed.
+  Lemma same_keys_perm : forall l l', Permutation l l' -> same_keys l l'.
+  Proof.
+    intros l l' H k. split; apply Permutation_in; apply Permutation_map; [exact H|apply Permutation_sym; exact H].
+  Qed.
+
+  Lemma comb_keys : forall l x, same_keys (x :: l) (comb combine x l).
+  Proof.
+    induction l as [|y r IH]; intros x; simpl comb; [apply same_keys_refl|].
+    destruct (combine x y) as [c|] eqn:E.
+    - destruct (combine_spec _ _ _ E) as [Hy [Hc _]].
+      eapply same_keys_trans; [|apply IH]. intro k. simpl. rewrite Hy, Hc. tauto.
+    - change (x :: y :: r) with ([x] ++ y :: r). change (x :: comb combine y r) with ([x] ++ comb combine y r).
+      apply same_keys_app; [apply same_keys_refl|apply IH].
+  Qed.
+
+  Lemma merge_group_keys : forall g, same_keys (concat g) (merge_group lt combine g).
+  Proof.
+    intros g. unfold merge_group.
+    eapply same_keys_trans; [apply same_keys_perm; apply Permutation_sym; apply (kmerge_perm lt g)|].
+    destruct (kmerge lt g) as [|x r]; [apply same_keys_refl|apply comb_keys].
+  Qed.
+
+  (* a property of single records that the combiner preserves holds for everything a merge group writes *)
+  Section RecordInv.
+    Variable Q : A -> Prop.
+    Hypothesis combine_Q : forall a b c, Q a -> Q b -> combine a b = Some c -> Q c.
+
+    Lemma comb_Forall : forall l x, Forall Q (x :: l) -> Forall Q (comb combine x l).
+    Proof.
+      induction l as [|y r IH]; intros x H; simpl; [exact H|].
+      inversion H as [|? ? Hx Hyr]; subst. inversion Hyr as [|? ? Hy Hr]; subst.
+      destruct (combine x y) as [c|] eqn:E.
+      - apply IH. constructor; [exact (combine_Q x y c Hx Hy E)|exact Hr].
+      - constructor; [exact Hx|apply IH; exact Hyr].
+    Qed.
+
+    Lemma merge_group_Forall : forall g, Forall (Forall Q) g -> Forall Q (merge_group lt combine g).
+    Proof.
+      intros g Hg. unfold merge_group.
+      assert (H : Forall Q (kmerge lt g)).
+      { rewrite Forall_forall. intros a Ha. apply (Permutation_in _ (kmerge_perm lt g)) in Ha.
+        apply in_concat in Ha. destruct Ha as [r [Hr Har]]. rewrite Forall_forall in Hg. specialize (Hg r Hr).
+        rewrite Forall_forall in Hg. apply Hg. exact Har. }
+      destruct (kmerge lt g) as [|x r]; [constructor|apply comb_Forall; exact H].
+    Qed.
+  End RecordInv.
+
+  Lemma lt_irrefl : forall a, lt a a = false.
+  Proof. intro a. destruct (lt a a) eqn:E; [|reflexivity]. rewrite (lt_asym _ _ E) in E. discriminate. Qed.
+
+  Lemma strict_head_key : forall x r, strict (x :: r) -> forall z, In z r -> key z <> key x.
+  Proof.
+    intros x r H z Hz Hk. inversion H as [|? ? _ Hx]; subst. rewrite Forall_forall in Hx. specialize (Hx z Hz).
+    rewrite (lt_key x x z x eq_refl Hk), lt_irrefl in Hx. discriminate.
+  Qed.
+
+  Lemma total_notin : forall k r, (forall z, In z r -> key z <> k) -> total k r = 0.
+  Proof.
+    induction r as [|z r IH]; intro H; simpl; [reflexivity|].
+    destruct (key_eq_dec (key z) k) as [E|E]; [exfalso; apply (H z (or_introl eq_refl) E)|].
+    rewrite IH; [reflexivity|]. intros z' Hz'. apply H. right. exact Hz'.
+  Qed.
+
+  (* in a strictly increasing list a key occurs once, so the per-key total IS that record's count *)
+  Lemma strict_total : forall l a, strict l -> In a l -> total (key a) l = cnt a.
+  Proof.
+    induction l as [|x r IH]; intros a Hs Ha; [contradiction|].
+    assert (Hr : strict r) by (inversion Hs; assumption).
+    destruct Ha as [Ha|Ha].
+    - subst a. simpl. destruct (key_eq_dec (key x) (key x)) as [_|E]; [|contradiction].
+      rewrite total_notin; [lia|]. apply (strict_head_key _ _ Hs).
+    - simpl. destruct (key_eq_dec (key x) (key a)) as [E|E].
+      + exfalso. apply (strict_head_key _ _ Hs a Ha). symmetry. exact E.
+      + rewrite (IH a Hr Ha). lia.
+  Qed.
+
+  (* two strictly increasing lists over the same key set list the keys in the same order *)
+  Lemma strict_unique_keys : forall l1 l2, strict l1 -> strict l2 -> same_keys l1 l2 -> map key l1 = map key l2.
+  Proof.
+    induction l1 as [|x r1 IH]; intros l2 H1 H2 Hk.
+    - destruct l2 as [|y r2]; [reflexivity|]. exfalso. apply (proj2 (Hk (key y))). simpl. left. reflexivity.
+    - destruct l2 as [|y r2]; [exfalso; apply (proj1 (Hk (key x))); simpl; left; reflexivity|].
+      assert (Hr1 : strict r1) by (inversion H1; assumption). assert (Hr2 : strict r2) by (inversion H2; assumption).
+      assert (Hx1 : Forall (fun z => lt x z = true) r1) by (inversion H1; assumption).
+      assert (Hy2 : Forall (fun z => lt y z = true) r2) by (inversion H2; assumption).
+      rewrite Forall_forall in Hx1, Hy2.
+      assert (Hxy : key x = key y).
+      { destruct (key_eq_dec (key x) (key y)) as [E|E]; [exact E|]. exfalso.
+        assert (Hyx : lt y x = true).
+        { destruct (proj1 (Hk (key x)) (or_introl eq_refl)) as [Hc|Hc]; [congruence|].
+          apply in_map_iff in Hc. destruct Hc as [z [Hz1 Hz2]]. rewrite <- (lt_key y y z x eq_refl Hz1). apply Hy2. exact Hz2. }
+        assert (Hxy' : lt x y = true).
+        { destruct (proj2 (Hk (key y)) (or_introl eq_refl)) as [Hc|Hc]; [congruence|].
+          apply in_map_iff in Hc. destruct Hc as [z [Hz1 Hz2]]. rewrite <- (lt_key x x z y eq_refl Hz1). apply Hx1. exact Hz2. }
+        rewrite (lt_asym _ _ Hxy') in Hyx. discriminate. }
+      simpl. f_equal; [exact Hxy|]. apply IH; try assumption.
+      intro k. split; intro Hin.
+      + destruct (proj1 (Hk k) (or_intror Hin)) as [Hc|Hc]; [|exact Hc]. exfalso.
+        apply in_map_iff in Hin. destruct Hin as [z [Hz1 Hz2]].
+        apply (strict_head_key _ _ H1 z Hz2). congruence.
+      + destruct (proj2 (Hk k) (or_intror Hin)) as [Hc|Hc]; [|exact Hc]. exfalso.
+        apply in_map_iff in Hin. destruct Hin as [z [Hz1 Hz2]].
+        apply (strict_head_key _ _ H2 z Hz2). congruence.
+  Qed.
+
+  (* ... and if, moreover, the per-key totals agree in Z/W, counts are below W and a record is determined by its key and
+     count, the two lists are equal *)
+  Lemma strict_unique : forall (Q : A -> Prop),
+    (forall a, Q a -> cnt a < W) -> (forall a b, Q a -> Q b -> key a = key b -> cnt a = cnt b -> a = b) ->
+    forall l1 l2, strict l1 -> strict l2 -> same_keys l1 l2 -> same_totals l1 l2 -> Forall Q l1 -> Forall Q l2 -> l1 = l2.
+  Proof.
+    intros Q Qlt Qdet l1 l2 H1 H2 Hk Ht HQ1 HQ2.
+    assert (Hkeys := strict_unique_keys l1 l2 H1 H2 Hk).
+    assert (Hgen : forall s1 s2, (forall a, In a s1 -> In a l1) -> (forall b, In b s2 -> In b l2) ->
+                                 map key s1 = map key s2 -> s1 = s2).
+    { induction s1 as [|a s1 IHs]; intros s2 Hs1 Hs2 Hm; destruct s2 as [|b s2]; try discriminate; [reflexivity|].
+      simpl in Hm. injection Hm as Hab Hm'.
+      assert (Ha : In a l1) by (apply Hs1; left; reflexivity). assert (Hb : In b l2) by (apply Hs2; left; reflexivity).
+      rewrite Forall_forall in HQ1, HQ2.
+      assert (Hc : cnt a = cnt b).
+      { rewrite <- (N.mod_small (cnt a) W) by (apply Qlt; apply HQ1; exact Ha).
+        rewrite <- (N.mod_small (cnt b) W) by (apply Qlt; apply HQ2; exact Hb).
+        rewrite <- (strict_total l1 a H1 Ha), <- (strict_total l2 b H2 Hb), Hab. apply Ht. }
+      f_equal; [apply Qdet; auto|]. apply IHs; [intros; apply Hs1; right; assumption|intros; apply Hs2; right; assumption|exact Hm']. }
+    apply Hgen; auto.
+  Qed.
 End CombineProofs.
